@@ -16,6 +16,7 @@ import (
 	"strings"
 	"sync"
 	"testing"
+	"time"
 
 	"github.com/ipfs/go-cid"
 	ds "github.com/ipfs/go-datastore"
@@ -830,5 +831,324 @@ func TestVerif_C20_ResetFaults(t *testing.T) {
 			res.Class("mode-" + s.Mode)
 			return
 		},
+	})
+}
+
+// ---------- part: reset interleaved with concurrent puts (every datastore call is a yield point) ----------
+
+type ksIlSc struct {
+	Mode       string  `json:"mode"` // shared | factory
+	PrefixBits int     `json:"prefix_bits"`
+	BatchSize  int     `json:"batch_size"`
+	BufCap     int     `json:"buf_cap"`
+	Initial    []int   `json:"initial"`
+	Reset      []int   `json:"reset"` // >= 1 key
+	Puts       [][]int `json:"puts"`  // concurrent Put calls (each 1-2 keys), started only after the first reset key was consumed
+	Schedule   []int   `json:"schedule"`
+	CancelAt   int     `json:"cancel_at"` // >0: cancel the reset's context at that step
+}
+
+type gateReq struct {
+	c      verifsim.Call
+	resume chan struct{}
+}
+
+func runKSInterleave(t *testing.T, s ksIlSc) (res verifsim.Result) {
+	base := ksSc{Mode: s.Mode, PrefixBits: s.PrefixBits, BatchSize: s.BatchSize}
+	old := sortedKeys(setOf(resolveKeys(s.Initial)))
+	nw := sortedKeys(setOf(resolveKeys(s.Reset)))
+	putsDuring := 0
+	var st *stores
+	type putRec struct {
+		keys   []int
+		ackT   int // clock value when acknowledged (-1: never)
+		err    error
+		startT int
+	}
+	var puts []*putRec
+	resetDone := false
+	var resetErr error
+	out := verifsim.Bubble(t, func() {
+		ctx := context.Background()
+		st = newStores()
+		if s.Mode == "factory" {
+			c, _ := st.factory()
+			c("0")
+			c("1")
+		}
+		opts := []ResettableKeystoreOption{KeystoreOption(WithPrefixBits(s.PrefixBits), WithBatchSize(s.BatchSize)), WithResetBufferCapacity(max(1, s.BufCap))}
+		if s.Mode == "factory" {
+			c, d := st.factory()
+			opts = append(opts, WithDatastoreFactory(c, d))
+		}
+		rk, err := NewResettableKeystore(st.meta, opts...)
+		if err != nil {
+			res.Fail("open", "C20/open/error", "%v", err)
+			return
+		}
+		closed := false
+		defer func() {
+			if !closed {
+				rk.Close()
+			}
+		}()
+		if len(s.Initial) > 0 {
+			if _, err := rk.Put(ctx, mhsOf(resolveKeys(s.Initial))...); err != nil {
+				res.Fail("put/error", "C20/put/error", "%v", err)
+				return
+			}
+		}
+		verifsim.Quiesce()
+		// install gates
+		gateCh := make(chan gateReq, 64)
+		gate := func(c verifsim.Call) {
+			r := gateReq{c, make(chan struct{})}
+			gateCh <- r
+			<-r.resume
+		}
+		st.meta.Gate = gate
+		for _, d := range st.slot {
+			d.Gate = gate
+		}
+		keysCh := make(chan cid.Cid)
+		rctx, cancel := context.WithCancel(ctx)
+		defer cancel()
+		resetC := make(chan error, 1)
+		go func() { resetC <- rk.ResetCids(rctx, keysCh) }()
+		fed := 0
+		feedTok := make(chan struct{})
+		feedDone := make(chan struct{})
+		go func() {
+			defer close(feedDone)
+			for _, h := range mhsOf(resolveKeys(s.Reset)) {
+				select {
+				case <-feedTok:
+				case <-rctx.Done():
+					return
+				}
+				select {
+				case keysCh <- cid.NewCidV1(cid.Raw, h):
+				case <-rctx.Done():
+					return
+				}
+			}
+			select {
+			case <-feedTok:
+			case <-rctx.Done():
+				return
+			}
+			close(keysCh)
+		}()
+		var parked []gateReq
+		nextPut := 0
+		putDone := make(chan int, len(s.Puts))
+		running := 0
+		feedLeft := len(s.Reset) + 1
+		for step := 0; step < 3000; step++ {
+			verifsim.Quiesce()
+		drain:
+			for {
+				select {
+				case r := <-gateCh:
+					parked = append(parked, r)
+				case i := <-putDone:
+					_ = i
+					running--
+				case err := <-resetC:
+					resetDone, resetErr = true, err
+				default:
+					break drain
+				}
+			}
+			if resetDone && nextPut >= len(s.Puts) && running == 0 && len(parked) == 0 {
+				break
+			}
+			if s.CancelAt > 0 && step == s.CancelAt {
+				cancel()
+				continue
+			}
+			type action struct {
+				kind string
+				i    int
+			}
+			var acts []action
+			for i := range parked {
+				acts = append(acts, action{"release", i})
+			}
+			if feedLeft > 0 && !resetDone {
+				acts = append(acts, action{"feed", 0})
+			}
+			if nextPut < len(s.Puts) && (fed >= 1 || resetDone) {
+				acts = append(acts, action{"put", 0})
+			}
+			if len(acts) == 0 {
+				// nothing to choose: let virtual time pass (phase A ticker, back-pressure waits)
+				time.Sleep(100 * time.Millisecond)
+				continue
+			}
+			ch := 0
+			if step < len(s.Schedule) {
+				ch = s.Schedule[step]
+			}
+			a := acts[ch%len(acts)]
+			switch a.kind {
+			case "release":
+				r := parked[a.i]
+				parked = append(parked[:a.i], parked[a.i+1:]...)
+				close(r.resume)
+			case "feed":
+				select {
+				case feedTok <- struct{}{}:
+					feedLeft--
+					fed++
+				default:
+					// the feeder is still handing over the previous key: let time pass
+					time.Sleep(time.Millisecond)
+				}
+			case "put":
+				p := &putRec{keys: resolveKeys(s.Puts[nextPut]), ackT: -1, startT: st.clock.Now()}
+				puts = append(puts, p)
+				if !resetDone {
+					putsDuring++
+				}
+				idx := nextPut
+				nextPut++
+				running++
+				go func() {
+					_, err := rk.Put(ctx, mhsOf(p.keys)...)
+					p.err = err
+					if err == nil {
+						p.ackT = st.clock.Now()
+					}
+					putDone <- idx
+				}()
+			}
+		}
+		st.meta.Gate = nil
+		for _, d := range st.slot {
+			d.Gate = nil
+		}
+		for _, r := range parked {
+			close(r.resume)
+		}
+		cancel()
+		<-feedDone
+		if !resetDone {
+			select {
+			case resetErr = <-resetC:
+				resetDone = true
+			case <-time.After(10 * time.Minute):
+				res.Fail("reset-returns", "C20/interleave/reset-hangs", "ResetCids did not return")
+				return
+			}
+		}
+		time.Sleep(time.Second)
+		verifsim.Quiesce()
+		// ---- final contents
+		var must []int
+		for _, p := range puts {
+			if p.err == nil {
+				must = append(must, p.keys...)
+			}
+		}
+		check := func(when string, k Keystore) bool {
+			got, size, err := contentsOf(ctx, k)
+			if err != nil {
+				res.Fail("read", "C20/interleave/read-error", "%s: %v", when, err)
+				return false
+			}
+			gs := setOf(got)
+			for _, m := range must {
+				if !gs[m] {
+					res.Fail("acked-puts-kept", "C20/interleave/acked-put-lost", "%s: key %d whose Put was acknowledged during the reset is missing (reset err %v); contents %v, old %v, new %v, puts %v", when, m, resetErr, got, old, nw, must)
+					return false
+				}
+			}
+			rest := map[int]bool{}
+			ms := setOf(must)
+			for _, g := range got {
+				if !ms[g] {
+					rest[g] = true
+				}
+			}
+			// what remains besides the concurrent puts must be exactly old-minus-puts or new-minus-puts
+			eq := func(ref []int) bool {
+				r := map[int]bool{}
+				for _, x := range ref {
+					if !ms[x] {
+						r[x] = true
+					}
+				}
+				if len(r) != len(rest) {
+					return false
+				}
+				for x := range r {
+					if !rest[x] {
+						return false
+					}
+				}
+				return true
+			}
+			wantNew := resetErr == nil
+			if !(eq(nw) || (!wantNew && eq(old))) {
+				res.Fail("old-or-new", "C20/interleave/mixture", "%s: contents %v are neither new∪puts nor (reset failed: %v) old∪puts; old %v new %v puts %v", when, got, resetErr, old, nw, must)
+				return false
+			}
+			if size != len(got) {
+				res.Fail("size", "C20/interleave/size", "%s: Size %d but %d keys stored (reset err %v)", when, size, len(got), resetErr)
+				return false
+			}
+			return true
+		}
+		if !check("running instance", rk) {
+			return
+		}
+		rk.Close()
+		closed = true
+		k2, _, err := openKS(base, st)
+		if err != nil {
+			res.Fail("open", "C20/open/error", "reopen: %v", err)
+			return
+		}
+		check("after clean restart", k2)
+		k2.Close()
+	})
+	if !out.OK() && len(res.Violations) == 0 {
+		res.Fail("terminates", "C20/interleave/hang-or-panic", "%s %s\n%s", out.Deadlock, out.Panic, out.Stacks)
+	}
+	res.NonTrivial = putsDuring > 0
+	if s.CancelAt > 0 {
+		res.Class("cancelled")
+	}
+	if putsDuring > 0 {
+		res.Class("puts-during-reset")
+	}
+	res.Class("mode-" + s.Mode)
+	return
+}
+
+func TestVerif_C20_ResetInterleave(t *testing.T) {
+	verifsim.RunCheck(t, verifsim.Check[ksIlSc]{
+		Property: "C20", Part: "reset-interleave",
+		Rule: "rapid: ResettableKeystore (shared/factory, prefixBits 0/8/16, batch size 1-3, reset buffer capacity 1-4) with 0-4 initial keys, a reset of 1-6 keys fed one by one, and 0-4 concurrent Put calls; EVERY datastore call of every goroutine is a " +
+			"yield point, feeding the next reset key and starting the next Put are steps too, and a drawn choice list decides which step happens next (quiescence by synctest.Wait, virtual time for the phase-A ticker and back-pressure); optional cancellation at a drawn step; " +
+			"oracle: ResetCids returns, afterwards and after a clean restart the contents are exactly new∪(acknowledged concurrent puts) (or old∪puts if the reset failed), never a mixture, no acknowledged put lost, Size equals the count; non-trivial = a Put was started while the reset was running",
+		Gen: func(t *rapid.T) ksIlSc {
+			s := ksIlSc{
+				Mode:       rapid.SampledFrom([]string{"shared", "factory"}).Draw(t, "mode"),
+				PrefixBits: rapid.SampledFrom([]int{0, 8, 16}).Draw(t, "prefixBits"),
+				BatchSize:  rapid.IntRange(1, 3).Draw(t, "batchSize"),
+				BufCap:     rapid.IntRange(1, 4).Draw(t, "bufCap"),
+				Initial:    drawKeyRanks(t, "initial", 0, 4),
+				Reset:      drawKeyRanks(t, "reset", 1, 6),
+			}
+			s.Puts = rapid.SliceOfN(rapid.SliceOfN(rapid.IntRange(0, 63), 1, 2), 0, 4).Draw(t, "puts")
+			s.Schedule = rapid.SliceOfN(rapid.IntRange(0, 7), 0, 120).Draw(t, "schedule")
+			if rapid.IntRange(0, 5).Draw(t, "cancel") == 0 {
+				s.CancelAt = rapid.IntRange(1, 60).Draw(t, "cancelAt")
+			}
+			return s
+		},
+		Run: func(t *testing.T, s ksIlSc) verifsim.Result { return runKSInterleave(t, s) },
 	})
 }
